@@ -717,3 +717,21 @@ Definition check_case (c : case) : bool :=
                       | None, _ => false
                       end) rows
   end.
+
+(* ------------------------------------------------------------------ round 5: the source of the draws *)
+
+(* All bounded functions of one process draw from ONE generator, whose state comes from the entropy
+   e the interpreter was started with and from everything the run executed before the draw.  For a
+   fixed recipe and a fixed position of the run (table, row, field) that is a function
+   `draw : entropy -> draw`.  A recipe feature that re-seeds the generator with a constant makes
+   `draw` constant from there on. *)
+Definition number_at (mn mx step : Z) (draw : Z -> Z) (e : Z) : result Z :=
+  random_number mn mx step (Some (draw e)).
+
+(* the values one position of the recipe shows over a list of fresh processes *)
+Definition values_over (mn mx step : Z) (draw : Z -> Z) (es : list Z) : list (result Z) :=
+  map (number_at mn mx step draw) es.
+
+(* the harness's observable: the position shows the same value in every process *)
+Definition stuck {A} (f : Z -> A) (es : list Z) : Prop :=
+  forall e e', In e es -> In e' es -> f e = f e'.
